@@ -323,13 +323,13 @@ def precondition_set(ctx, c):
         name = path.split("::")[-1]
         f = fl[0]
         params = [binding_of_pat(p) for p in f["params"]]
-        pidx = {}
+        pidx = builders._ParamIndex()
         k = 0
         for b in params:
             if b and b[0] != "self":
                 pidx[b[1]] = k
                 k += 1
-        ids = set(pidx)
+        ids = pidx            # membership through aliases (parameters of inlined helpers)
         hard = []
         soft = []
         constrained = set()
